@@ -40,6 +40,8 @@ pub(crate) struct Derive {
 impl Derive {
     pub(crate) fn generate(self, mut features: Features) -> TokenStream {
         features.resolve(&self);
+        #[cfg(feature = "verif_hooks")]
+        crate::verif::resolved(&self, &features);
 
         // names
         let names = Names::new(&features, &self);
